@@ -41,6 +41,68 @@ theorem publicCfg_eq (S : Spec Cfg Slot Val Field FVal) (valid : Field → FVal 
 
 end
 
+/-! settings as independent fields (round 5) -/
+
+namespace FieldSetters
+variable {Field FVal : Type} [DecidableEq Field]
+
+theorem upd_comm (F : FieldSetters Field FVal) (hL : F.Local) (hO : F.OwnOnly) {k k' : Field} (h : k ≠ k')
+    (x x' : FVal) (c : Field → FVal) : F.upd k x (F.upd k' x' c) = F.upd k' x' (F.upd k x c) := by
+  have e1 : F.put k x (F.upd k' x' c) = F.put k x c := by
+    apply hL; intro j hj
+    have : j = k := hO k j hj
+    subst this
+    simp [upd, h]
+  have e2 : F.put k' x' (F.upd k x c) = F.put k' x' c := by
+    apply hL; intro j hj
+    have : j = k' := hO k' j hj
+    subst this
+    simp [upd, Ne.symm h]
+  funext j
+  by_cases a : j = k
+  · subst a; simp [upd, h, e1]
+  · by_cases b : j = k'
+    · subst b; simp [upd, a, e2]
+    · simp [upd, a, b]
+
+theorem fst_ne_of_pairwise : ∀ (l : List (Field × FVal)), l.Pairwise (fun a b => a.1 ≠ b.1) →
+    ∀ x ∈ l, ∀ y ∈ l, x ≠ y → x.1 ≠ y.1
+  | [], _, x, hx, _, _, _ => by cases hx
+  | a :: l, hp, x, hx, y, hy, hne => by
+    rw [List.pairwise_cons] at hp
+    rcases List.mem_cons.mp hx with rfl | hx'
+    · rcases List.mem_cons.mp hy with rfl | hy'
+      · exact absurd rfl hne
+      · exact hp.1 y hy'
+    · rcases List.mem_cons.mp hy with rfl | hy'
+      · exact fun e => hp.1 x hx' e.symm
+      · exact fst_ne_of_pairwise l hp.2 x hx' y hy' hne
+
+theorem apply_perm (F : FieldSetters Field FVal) (hL : F.Local) (hO : F.OwnOnly)
+    {l₁ l₂ : List (Field × FVal)} (p : l₁.Perm l₂) (nd : (l₁.map Prod.fst).Nodup) (c : Field → FVal) :
+    F.apply c l₁ = F.apply c l₂ := by
+  unfold apply
+  apply List.Perm.foldl_eq' p
+  intro x hx y hy z
+  by_cases e : x = y
+  · subst e; rfl
+  · have hp : l₁.Pairwise (fun a b => a.1 ≠ b.1) := by
+      have := nd
+      unfold List.Nodup at this
+      exact List.pairwise_map.mp this
+    have hne : x.1 ≠ y.1 := fst_ne_of_pairwise l₁ hp x hx y hy e
+    exact upd_comm F hL hO (Ne.symm hne) y.2 x.2 z
+
+theorem finalCfg_setOps {Slot Val : Type} (F : FieldSetters Field FVal) (f : Slot → (Field → FVal) → Val)
+    (resets : Field → List Slot) : ∀ (l : List (Field × FVal)) (c : Field → FVal),
+    finalCfg (F.toSpec f resets) c (setOps l) = F.apply c l
+  | [], _ => rfl
+  | p :: l, c => by
+    simp only [setOps, List.map_cons, finalCfg, apply, List.foldl_cons]
+    exact finalCfg_setOps F f resets l _
+
+end FieldSetters
+
 /-! table machine -/
 
 theorem stepRefuse_safe (t : ClassTable) (s : Setter) (st : TState) (h : s.early.isEmpty = true) :
